@@ -40,3 +40,21 @@ Proof.
     unfold alive_apply. rewrite E0. cbn [negb andb].
     assert (E2 : (inc <=? rinc r)%N = true) by (apply N.leb_le; exact Ge). rewrite E2. cbn [andb fst]. exact L.
 Qed.
+
+(* C03: a crashed target sends nothing, so no acknowledgement with the probe's own sequence number ever
+   arrives and a TCP fallback finds nobody: the probe fails (and the node suspects the target), unless the
+   ping could not even be handed to the network for a local reason *)
+From VF Require Import Probe Probe_proofs.
+Lemma silent_target_fails pi :
+  p_send pi <> 2 -> p_tcp pi = None ->
+  Forall (fun a => match a with Ack s _ => s <> p_seq pi | Nack _ _ => True end) (p_arrivals pi) ->
+  probe_outcome pi = Failed.
+Proof.
+  intros Hs Ht Hf.
+  destruct (probe_outcome pi) eqn:E; [| |reflexivity].
+  - apply (answered_iff pi Hs) in E. destruct E as [[t [Hin _]]|Htc].
+    + rewrite Forall_forall in Hf. specialize (Hf _ Hin). cbn in Hf. congruence.
+    + unfold tcp_contact in Htc. rewrite Ht in Htc. rewrite andb_false_r in Htc. discriminate.
+  - unfold probe_outcome in E. destruct (Z.eqb_spec (p_send pi) 2); [contradiction|].
+    destruct (matching_ack_before pi (p_interval pi) || tcp_contact pi); discriminate.
+Qed.
